@@ -29,7 +29,7 @@ def run_one(patch):
         out = subprocess.run([os.path.join(VERIF, "bin/govc"), "check", "-repo", os.path.join(tmp, "repo"), "-verif", VERIF,
                               "-out", os.path.join(tmp, "evidence"), prop, "quick"], capture_output=True, text=True)
         failed = [l for l in out.stdout.splitlines() if l.startswith("FAILED ")]
-        hit = any(expect in l for l in failed)
+        hit = any(e.strip() in l for l in failed for e in expect.split("||"))
         ok = out.returncode == 1 and hit
         return (patch, prop, ok, "; ".join(l.split(" ::")[0] for l in failed)[:300] or out.stdout[-300:])
     finally:
